@@ -158,15 +158,25 @@ Definition chk_run (p : jprog) (s : spine) (r : eobs) : bool :=
 Definition lobs := (store * list tid * store)%type.
 Definition chk_lrun (p : jprog) (r : lobs) : bool :=
   let '(st0, locks, fin) := r in store_eqb (fst (run_phases_l locks 14 st0 p)) fin.
-Definition chk_exec (c : jprog * list eobs * list lobs) : bool :=
-  let '(p, runs, lruns) := c in
+(* jug sleep-until while others write [incs] (one element per sleep): start store, incs, and what was seen:
+   Some (store at exit, sleeps, loads) or None = slept again after the last write *)
+Definition sobs := (store * list store * option (store * nat * nat))%type.
+Definition chk_su (p : jprog) (r : sobs) : bool :=
+  let '(st0, incs, o) := r in
+  match sleep_until 14 st0 incs p, o with
+  | Some (s, n, k), Some (fin, n', k') => store_eqb s fin && Nat.eqb n n' && Nat.eqb k k'
+  | None, None => true
+  | _, _ => false
+  end.
+Definition chk_exec (c : jprog * list eobs * list lobs * list sobs) : bool :=
+  let '(p, runs, lruns, sruns) := c in
   match seq_eval p with
-  | Some s => functionalb (slog s) && forallb (chk_run p s) runs && forallb (chk_lrun p) lruns
+  | Some s => functionalb (slog s) && forallb (chk_run p s) runs && forallb (chk_lrun p) lruns && forallb (chk_su p) sruns
   | None => false
   end.
 '''
 INIT_TYPE = 'jprog * list iobs'
-EXEC_TYPE = 'jprog * list eobs * list lobs'
+EXEC_TYPE = 'jprog * list eobs * list lobs * list sobs'
 SLACK = 170                            # Python frames left to jug when a long program is loaded / executed (~4 per link)
 LARGE = 40                             # programs with more results than this get structured store states
 
@@ -312,6 +322,8 @@ class ProgramRun:
         self.exec_meta = []
         self.lrun_obs = []
         self.lrun_meta = []
+        self.su_obs = []
+        self.su_meta = []
         sc.write(prog)
 
     def viol(self, what, **kw):
@@ -426,6 +438,9 @@ class ProgramRun:
 
     def one_exec(self, items, backend, root, agrees, nwc=1):
         ck = self.ck
+        if lg.TIMEOUTS[0] >= 3:
+            ck.count('execute: skipped after three runs that did not finish')
+            return
         via_main = False
         store, target = self.prepare(items, backend, root)
         if backend == 'file':
@@ -437,6 +452,10 @@ class ProgramRun:
             code, mlog, out = lg.real_execute(self.sc, target, via_main=via_main, nwc=nwc, slack=self.slack)
         except lg.HarnessError:
             raise
+        except lg.ExecTimeout as e:
+            self.viol('jug execute did not finish (the unchanged code needs under 2 s on such a program)', waited=str(e), **ctx)
+            ck.count('execute: timed out')
+            return
         except Exception as e:                     # the code under test raised: a finding, not a harness failure
             self.viol('jug execute raised an exception', exception='%s: %s' % (type(e).__name__, str(e)[:300]), **ctx)
             ck.count('execute: raised')
@@ -517,6 +536,9 @@ class ProgramRun:
         mode 'raises' / 'raises-once': the functions of the tasks `chosen` (indices into self.R) raise every time /
         the first time, run with --keep-going (or not) and --keep-failed (or not)."""
         ck, it = self.ck, self.it
+        if lg.TIMEOUTS[0] >= 3:
+            ck.count('execute: skipped after three runs that did not finish')
+            return
         store, target = self.prepare(items, backend, root)
         state = [[h, v] for h, v in items]
         vals = dict((d, v) for d, v in self.log)
@@ -543,6 +565,10 @@ class ProgramRun:
             code, mlog, out = lg.real_execute(self.sc, target, nwc=nwc, extra=extra, slack=self.slack, fail=fail)
         except lg.HarnessError:
             raise
+        except lg.ExecTimeout as e:
+            self.viol('jug execute did not finish (the unchanged code needs under 2 s on such a program)', waited=str(e), **ctx)
+            ck.count('execute: timed out')
+            return
         except Exception as e:
             self.viol('jug execute raised an exception', exception='%s: %s' % (type(e).__name__, str(e)[:300]), **ctx)
             ck.count('execute: raised')
@@ -610,6 +636,103 @@ class ProgramRun:
         if backend == 'file':
             store.close()
 
+    # ------------------------------------------------------------------ jug sleep-until
+    def one_sleep_until(self, items, writes, backend, root):
+        """the real `jug sleep-until` started on a store holding `items`, while others write writes[i] during the
+        i-th sleep"""
+        ck, it = self.ck, self.it
+        store, target = self.prepare(items, backend, root)
+        state = [[h, v] for h, v in items]
+        ctx = dict(start=state, backend=backend, sleep_until={'writes': [[[h, v] for h, v in w] for w in writes]})
+        try:
+            status, sleeps, used, mlog = lg.real_sleep_until(self.sc, store, writes, slack=self.slack)
+        except lg.HarnessError:
+            raise
+        except lg.ExecTimeout as e:
+            self.viol('jug sleep-until did not come back', waited=str(e), **ctx)
+            return
+        except Exception as e:
+            self.viol('jug sleep-until raised an exception', exception='%s: %s' % (type(e).__name__, str(e)[:300]), **ctx)
+            ck.count('sleep-until: raised')
+            return
+        final = lg.store_items(store)
+        loads = sum(1 for (n, _, _) in mlog if n == lg.TOPMARK)
+        for what, n, d in marker_oracle(mlog):
+            self.viol(what, marker=n, detail=d, during='sleep-until', **ctx)
+        # the oracle, independent of the model: a fresh load + check of the store as sleep-until left it
+        try:
+            r = lg.real_init(self.sc, store, slack=self.slack, hash_now=False)
+            code = lg.real_check(r['store'], r['space'], slack=self.slack)
+        except lg.HarnessError:
+            raise
+        except (Exception, SystemExit) as e:
+            self.viol('after jug sleep-until, loading the jugfile or jug check failed',
+                      exception='%s: %s' % (type(e).__name__, str(e)[:200]), **ctx)
+            return
+        complete = (not r['hasbarrier']) and code == 0
+        if status == 0 and not complete:
+            self.viol('jug sleep-until exited with 0 while a barrier is closed or a task of the jugfile has no result',
+                      hasbarrier=r['hasbarrier'], check=code, sleeps=sleeps, loads=loads,
+                      without_result=[lg.hx(t.hash()) for t in r['objs'] if not t.can_load()][:12], **ctx)
+        elif status == 'waiting' and complete:
+            # not a violation of C14 (it never exits too EARLY): sleep-until waits for the tasks of the load it made, e.g. the
+            # inner tasks of a compound that was expanded then, although the compound's value has arrived in the meantime
+            # and a fresh load would be complete (notes/strengthen_loader.txt, observation F4).  The model says the same.
+            ck.count('sleep-until: still waiting for tasks of a stale load although a fresh load is complete (F4)')
+        elif status not in (0, 'waiting'):
+            self.viol('jug sleep-until exited with an error', code=list(status), **ctx)
+        obs = 'None' if status != 0 else '(Some (%s, %s, %s))' % (lg.coq_store(sorted(final.items()), it), natlit(sleeps), natlit(loads))
+        lit = '(%s, [%s], %s)' % (lg.coq_store(items, it), '; '.join(lg.coq_store(w, it) for w in writes), obs)
+        self.su_obs.append(lit)
+        self.su_meta.append(dict(ctx, status=status if status in (0, 'waiting') else list(status), sleeps=sleeps, loads=loads,
+                                 final=sorted(final.items()), nwc=1))
+        ck.count('sleep-until: %s' % ('exited 0' if status == 0 else 'still waiting when the others stopped'))
+        ck.count('sleep-until: %s' % ('1 load' if loads == 1 else ('2 loads' if loads == 2 else '3 or more loads')))
+        ck.distinct((self.term, lit), self.nb > 0)
+        if backend == 'file':
+            store.close()
+
+    def sleep_untils(self, rng, root, k):
+        n = len(self.R)
+        if n == 0:
+            return
+        for j in range(k):
+            r = rng.random()
+            if r < 0.55:
+                have = set()
+            elif r < 0.8:
+                have = set(range(rng.randrange(n + 1)))
+            else:
+                have = set(i for i in range(n) if rng.random() < 0.4)
+            rest = [i for i in range(n) if i not in have]
+            r = rng.random()
+            if r < 0.25:
+                rng.shuffle(rest)                       # sleep-until does not care in which order results appear
+                ck_order = 'any order'
+            elif r < 0.33:
+                rest.reverse()
+                ck_order = 'reverse order'
+            else:
+                ck_order = 'sequential order'
+            todo = [self.R[i] for i in rest]
+            r = rng.random()
+            if todo and r < 0.15:
+                todo.pop(rng.randrange(len(todo)))     # a result nobody produces (its task is locked elsewhere, failed ...)
+                self.ck.count('sleep-until: a result never arrives')
+            elif todo and r < 0.25:
+                q = rng.randrange(len(todo))
+                todo[q] = (todo[q][0], perturb(todo[q][1], rng))
+                self.ck.count('sleep-until: a result is not the sequential value')
+            writes = []
+            big = max(1, len(todo) // rng.choice([4, 6, 9])) if self.large else 0
+            while todo:
+                c = rng.choice([1, 1, 1, 2, 2, 3, 5, len(todo)]) if not self.large else max(1, big + rng.randrange(-big // 2, big // 2 + 1))
+                writes.append(todo[:c])
+                todo = todo[c:]
+            self.ck.count('sleep-until: results arrive in %s' % ck_order)
+            backend = 'file' if (rng.random() < 0.15 and not self.large) else 'dict'
+            self.one_sleep_until([self.R[i] for i in sorted(have)], writes, backend, root)
+
     def blocked_runs(self, rng, root, k):
         n = len(self.R)
         if n == 0:
@@ -646,7 +769,7 @@ def run(ck):
                       'contradict it', 'C14_closed_barrier_*: Python scoping (wf [] p)']
     rng = ck.rng
     nprog = ck.n(200, 1800)
-    ndeep = ck.n(10, 50)
+    ndeep = ck.n(8, 50)
     niter = ck.n(10, 60)
     cap = ck.n(36, 80)
     nexec = ck.n(2, 4)
@@ -679,8 +802,9 @@ def run(ck):
                 pr.executes(rng, root, nexec)
                 if pr.nb > 0:
                     pr.blocked_runs(rng, root, 2 if name.startswith('gen') else 3)
+                pr.sleep_untils(rng, root, 2)
                 init_cases.append('(%s,\n [%s])' % (pr.term, ';\n  '.join(pr.init_obs)))
-                exec_cases.append('(%s,\n [%s],\n [%s])' % (pr.term, ';\n  '.join(pr.exec_obs), ';\n  '.join(pr.lrun_obs)))
+                exec_cases.append('(%s,\n [%s],\n [%s],\n [%s])' % (pr.term, ';\n  '.join(pr.exec_obs), ';\n  '.join(pr.lrun_obs), ';\n  '.join(pr.su_obs)))
                 init_runs.append(pr)
                 exec_runs.append(pr)
                 ck.count('programs')
@@ -701,7 +825,7 @@ def run(ck):
                 os.environ.pop('HOME', None)
             else:
                 os.environ['HOME'] = home
-    nobs = sum(len(pr.init_obs) + len(pr.exec_obs) + getattr(pr, 'nlruns', 0) for pr in init_runs)
+    nobs = sum(len(pr.init_obs) + len(pr.exec_obs) + getattr(pr, 'nlruns', 0) + len(pr.su_obs) for pr in init_runs)
     # long programs: one per shard (their literals are large), the others 12 per shard
     fails = cases_by_size(ck, 'init', INIT_TYPE, 'chk_init', init_cases, init_runs)
     for i in (fails or [])[:3]:
@@ -759,19 +883,25 @@ def prog_fields(pr):
 
 
 def pin_exec(ck, pr):
-    singles = ['(%s,\n [%s],\n [])' % (pr.term, o) for o in pr.exec_obs] + ['(%s,\n [],\n [%s])' % (pr.term, o) for o in pr.lrun_obs]
-    metas = [('exec', m) for m in pr.exec_meta] + [('blocked', m) for m in pr.lrun_meta]
+    singles = ['(%s,\n [%s],\n [],\n [])' % (pr.term, o) for o in pr.exec_obs] + \
+              ['(%s,\n [],\n [%s],\n [])' % (pr.term, o) for o in pr.lrun_obs] + \
+              ['(%s,\n [],\n [],\n [%s])' % (pr.term, o) for o in pr.su_obs]
+    metas = [('exec', m) for m in pr.exec_meta] + [('blocked', m) for m in pr.lrun_meta] + [('sleep-until', m) for m in pr.su_meta]
     fails = ck.cases('exec_pin', lg.COQ_IMPORTS, EXEC_TYPE, 'chk_exec', singles, shard=100, preamble=PREAMBLE)
     for j in (fails if fails else [0])[:3]:
         kind, m = metas[j]
         o = dict(prog_fields(pr), **{
-            'kind': 'correspondence', 'program': pr.name, 'observed': m, 'start': m['start'], 'backend': m['backend'],
+            'kind': 'correspondence', 'program': pr.name, 'observed': m if not pr.large else dict(m, final=len(m['final'])),
+            'start': m['start'], 'backend': m['backend'],
             'nwc': m.get('nwc', 1), 'coq_observation': singles[j][len(pr.term) + 3:] if not pr.large else '(long)'})
         if kind == 'exec':
             o['what'] = 'reload loop: model and jug execute disagree'
-        else:
+        elif kind == 'blocked':
             o['what'] = 'reload loop with tasks this worker cannot run: model and jug execute disagree'
             o['blocked_run'] = {'mode': m['mode'], 'chosen': m['chosen'], 'keep_going': m['keep_going'], 'keep_failed': m['keep_failed']}
+        else:
+            o['what'] = 'jug sleep-until: model (Loader.sleep_until) and SleepUntilCommand disagree'
+            o['sleep_until'] = m['sleep_until']
         ck.violation(o)
 
 
@@ -799,20 +929,28 @@ def replay(obj):
             br = obj.get('blocked_run') or ({'mode': obj['mode'], 'chosen': obj['chosen'],
                                              'keep_going': '--keep-going' in obj.get('options', []),
                                              'keep_failed': '--keep-failed' in obj.get('options', [])} if 'mode' in obj else None)
-            if br is not None:
+            if obj.get('sleep_until') is not None:
+                items = [(h, tuplify(v)) for h, v in obj['start']]
+                writes = [[(h, tuplify(v)) for h, v in w] for w in obj['sleep_until']['writes']]
+                pr.one_sleep_until(items, writes, obj.get('backend', 'dict'), root)
+                print('sleep-until from', short([(pr.it.hash_id(h), v) for h, v in items]), 'while others write',
+                      [[pr.it.hash_id(h) for h, _ in w] if not pr.large else len(w) for w in writes], '->',
+                      [dict((k, m[k]) for k in ('status', 'sleeps', 'loads')) for m in pr.su_meta[-1:]] or 'see the violations')
+                cases, typ, chk = ['(%s,\n [],\n [],\n [%s])' % (pr.term, o) for o in pr.su_obs], EXEC_TYPE, 'chk_exec'
+            elif br is not None:
                 items = [(h, tuplify(v)) for h, v in obj['start']]
                 pr.lrun(items, obj.get('backend', 'dict'), root, br['mode'], br['chosen'], obj.get('nwc', 1),
                         keep_going=br.get('keep_going', True), keep_failed=br.get('keep_failed', False))
                 print('blocked run (%s) from' % br['mode'], short([(pr.it.hash_id(h), v) for h, v in items]), '->',
                       [dict((k, m[k]) for k in ('code', 'raised', 'loads', 'blocked')) for m in pr.lrun_meta[-1:]] or 'see the violations')
-                cases, typ, chk = ['(%s,\n [],\n [%s])' % (pr.term, o) for o in pr.lrun_obs], EXEC_TYPE, 'chk_exec'
+                cases, typ, chk = ['(%s,\n [],\n [%s],\n [])' % (pr.term, o) for o in pr.lrun_obs], EXEC_TYPE, 'chk_exec'
             elif 'start' in obj:
                 items = [(h, tuplify(v)) for h, v in obj['start']]
                 agrees = all(dict(pr.R).get(h) == v for h, v in items)
                 pr.one_exec(items, obj.get('backend', 'dict'), root, agrees, nwc=obj.get('nwc', 1))
                 print('execute from', short([(pr.it.hash_id(h), v) for h, v in items]), '->',
                       [dict((k, (m[k] if k != 'final' else short(m[k]))) for k in ('loads', 'final', 'nwc')) for m in pr.exec_meta[-1:]] or 'failed')
-                cases, typ, chk = ['(%s,\n [%s],\n [])' % (pr.term, o) for o in pr.exec_obs], EXEC_TYPE, 'chk_exec'
+                cases, typ, chk = ['(%s,\n [%s],\n [],\n [])' % (pr.term, o) for o in pr.exec_obs], EXEC_TYPE, 'chk_exec'
             else:
                 items = [(h, tuplify(v)) for h, v in obj.get('store', [])]
                 pr.one_state(items, obj.get('backend', 'dict'), root)
@@ -829,7 +967,7 @@ def replay(obj):
                 os.environ['HOME'] = home
     if ck.found:
         for o in ck.found:
-            print('VIOLATED on the real code:', o.get('what'), dict((k, o[k]) for k in ('marker', 'detail', 'code', 'loadable', 'raised', 'keys', 'locks_after', 'loads') if k in o))
+            print('VIOLATED on the real code:', o.get('what'), dict((k, o[k]) for k in ('marker', 'detail', 'code', 'loadable', 'raised', 'keys', 'locks_after', 'loads', 'sleeps', 'hasbarrier', 'check', 'without_result') if k in o))
         rc = 1
     mrc, out = core.make(['Model/Loader.vo'])
     fails = ck.cases('replay', lg.COQ_IMPORTS, typ, chk, cases, preamble=PREAMBLE) if (mrc == 0 and cases) else None
